@@ -811,7 +811,23 @@ def gen_c03(seed, n, k_readers=4, pagesize=1024, numpages=12000):
                 t = readers.pop(r.randrange(len(readers)))
                 g.emit("drop %d" % t)
             else:
+                at = len(g.lines)
                 g.write_tx(r.randrange(5, 50))
+                # readers also come and go WHILE the writer is open (after its begin, before its commit or
+                # rollback): the writer decided what to release when it began, the new reader registers
+                # under the snapshot the writer started from
+                end = max(i for i in range(at, len(g.lines)) if g.lines[i].startswith(("commit ", "drop ")))
+                ins = []
+                if r.random() < 0.5 and len(readers) < k_readers:
+                    t = g.next_tx
+                    g.next_tx += 1
+                    ins.append((r.randrange(at + 1, end + 1), "begin %d r" % t))
+                    readers.append(t)
+                if r.random() < 0.3 and len(readers) > len(ins):
+                    t = readers.pop(r.randrange(len(readers) - len(ins)))
+                    ins.append((r.randrange(at + 1, end + 1), "drop %d" % t))
+                for pos, line in sorted(ins, reverse=True):
+                    g.lines.insert(pos, line)
                 if any(l.startswith("commit") for l in g.lines[-2:]):   # (`notes` may follow the commit line)
                     g.emit("file")
                     g.emit("flstate")
@@ -935,6 +951,8 @@ def gen_c10(seed, n, ntx=120, pagesize=1024, numpages=4000):
                     vlen = 300 if kind == "fixed" else r.choice([0, 10, 300, 900, 2500])
                     lines.append("put %d %d %s %s" % (t, h, hx(k), vtok(bytes([r.randrange(256)]) * vlen)))
             lines.append("commit %d" % t)
+            if i % 5 != 4:
+                lines.append("notes")      # every allocation call of the commit (4 of 5 commits; the rest use the order search)
             lines.append("file")
             lines.append("flstate")
             t += 1
